@@ -171,6 +171,8 @@ type World struct {
 	// SlowVerify > 0 makes the injected signature verifier of new nodes sleep up to that long per call,
 	// which widens the window between the pre-lock checks and the locked section of admission.
 	SlowVerify time.Duration
+	// TruncateAt, when set, is the Config.Truncate of new nodes (default: huge, the background truncation never triggers)
+	TruncateAt uint64
 	// Quiet suppresses the snapshot after every operation (long ledgers are observed at milestones).
 	Quiet bool
 }
@@ -271,7 +273,11 @@ func (w *World) newBook(a *Actor) (*accountant.AccountingBook, context.CancelFun
 	if w.SlowVerify > 0 {
 		ver = &slowVerifier{max: w.SlowVerify}
 	}
-	b, err := accountant.NewAccountingBook(ctx, accountant.Config{Truncate: 1 << 50}, ver, &a.W, NoLog{})
+	trunc := uint64(1 << 50)
+	if w.TruncateAt > 0 {
+		trunc = w.TruncateAt
+	}
+	b, err := accountant.NewAccountingBook(ctx, accountant.Config{Truncate: trunc}, ver, &a.W, NoLog{})
 	if err != nil {
 		cancel()
 		return nil, nil, err
